@@ -178,6 +178,37 @@ def rule_u2(chk: Check):
                     isinstance(val, ast.Call) and norm_stmt(val.func) in ("list", "dict", "set", "defaultdict", "deque"))
                 chk.require(not mutable, "U2-class-state", f"{rel}:{cls.name}.{name}", f"{rel}:{st.lineno}",
                             f"class attribute `{cls.name}.{name}` is a mutable container shared by all instances")
+    # ... and no method writes a class attribute (cls.X = / ClassName.X = / type(self).X =): that is process-wide state
+    for rel in MODULES:
+        mod = parse_py(rel)
+        classes = {c.name for c in mod.body if isinstance(c, ast.ClassDef)}
+        for cls in [n for n in mod.body if isinstance(n, ast.ClassDef)]:
+            for fn in [n for n in cls.body if isinstance(n, (ast.FunctionDef, ast.AsyncFunctionDef))]:
+                for n in ast.walk(fn):
+                    tg = n.targets if isinstance(n, ast.Assign) else ([n.target] if isinstance(n, (ast.AugAssign, ast.AnnAssign)) else [])
+                    for t in tg:
+                        base = t
+                        while isinstance(base, ast.Subscript):
+                            base = base.value
+                        if isinstance(base, ast.Attribute):
+                            owner = norm_stmt(base.value)
+                            if owner == "cls" or owner in classes or owner in ("type(self)", "self.__class__"):
+                                chk.count("U2-class-state")
+                                chk.fail("U2-class-state", f"{rel}:{cls.name}.{fn.name}:{norm_stmt(t)[:40]}", f"{rel}:{n.lineno}",
+                                         f"`{norm_stmt(n)[:60]}` writes the class attribute `{owner}.{base.attr}`: state shared by every "
+                                         f"parse in the process (results depend on what was parsed before)")
+    # ... and nothing reconfigures the interpreter or reads through a process-wide stdlib cache while parsing
+    GLOBAL_MUTATORS = ("sys.setrecursionlimit", "sys.settrace", "sys.setprofile", "sys.setswitchinterval", "locale.setlocale",
+                       "warnings.filterwarnings", "warnings.simplefilter", "random.seed", "os.chdir", "os.putenv", "signal.signal",
+                       "linecache.getline", "linecache.getlines", "linecache.checkcache", "gc.disable", "gc.enable")
+    for rel in MODULES:
+        mod = parse_py(rel)
+        for n in ast.walk(mod):
+            if isinstance(n, ast.Call) and norm_stmt(n.func) in GLOBAL_MUTATORS:
+                chk.count("U2-class-state")
+                chk.fail("U2-class-state", f"{rel}:{norm_stmt(n.func)}", f"{rel}:{n.lineno}",
+                         f"`{norm_stmt(n)[:60]}` changes or reads interpreter-wide state: two parses in one process (threads, a parse "
+                         f"started from a readline callback, a file edited between two parses) influence each other")
     chk.floor("U2-class-state", 20)
 
 
